@@ -2157,6 +2157,15 @@ static void run_op(json_t *op)
 	} else if (!strcmp(name, "KeyGen")) {
 		/* fresh key material under a pool name (thorough tiers) */
 		pool_add(jstr(op, "name", "fresh"), fresh_key(jstr(op, "kind", "P-256"), (int)jint(op, "bits", 2048)));
+	} else if (!strcmp(name, "KeyLoad")) {
+		/* register key material given as PEM text under a pool name */
+		const char *pem = jstr(op, "pem", "");
+		BIO *b = BIO_new_mem_buf(pem, -1);
+		EVP_PKEY *k = PEM_read_bio_PrivateKey(b, NULL, NULL, NULL);
+		BIO_free(b);
+		if (!k) die("KeyLoad: bad PEM");
+		pool_add(jstr(op, "name", "loaded"), k);
+		json_object_del(ev, "pem");
 	} else if (!strcmp(name, "OpsEnv")) {
 		const char *v = getenv("JWT_CRYPTO");
 		json_object_set_new(ev, "env", json_string(v && is_plain_ascii(v) ? v : "~"));
@@ -2288,6 +2297,7 @@ int main(int argc, char **argv)
 	const char *script = NULL, *out = NULL;
 	long skip = 0, limit = -1, idx = 0;
 	int do_fault = 0;
+	const char *mode_export = NULL, *mode_arg = NULL, *mode_gen = NULL, *mode_zero = NULL;
 	FILE *f;
 	char *line = NULL; size_t cap = 0; ssize_t n;
 	struct sigaction sa;
@@ -2303,7 +2313,49 @@ int main(int argc, char **argv)
 		else if (!strcmp(argv[i], "--leak-every") && i + 1 < argc) leak_every = atoi(argv[++i]);
 		else if (!strcmp(argv[i], "--timeout") && i + 1 < argc) call_timeout = atoi(argv[++i]);
 		else if (!strcmp(argv[i], "--fault")) do_fault = 1;
+		else if (!strcmp(argv[i], "--export-jwk") && i + 1 < argc) { mode_export = "jwk"; mode_arg = argv[++i]; }
+		else if (!strcmp(argv[i], "--export-key") && i + 1 < argc) { mode_export = "key"; mode_arg = argv[++i]; }
+		else if (!strcmp(argv[i], "--genpem") && i + 2 < argc) { mode_gen = argv[++i]; mode_arg = argv[++i]; }
+		else if (!strcmp(argv[i], "--zero") && i + 1 < argc) mode_zero = argv[++i];
 		else die("usage: jwtdrv --script F --out F [--keys D] [--seed N] [--skip N] [--limit N] [--leak-every N]");
+	}
+	if (mode_export) {
+		/* print a key descriptor as JWKS / PEM / raw oct bytes (the driver's own exporter) */
+		json_error_t e;
+		json_t *kd = json_loads(mode_arg, 0, &e);
+		if (!kd) die("bad descriptor");
+		if (!strcmp(mode_export, "jwk")) {
+			json_t *j = export_jwk(kd), *top = json_pack("{s:[o]}", "keys", j);
+			char *t = json_dumps(top, JSON_COMPACT);
+			puts(t);
+		} else if (!strcmp(jstr(kd, "kty", "~"), "oct")) {
+			size_t len = (size_t)jint(kd, "bits", 0) / 8;
+			unsigned char *b = malloc(len + 1);
+			oct_bytes(b, len, jstr(kd, "var", "a"));
+			fwrite(b, 1, len, stdout);
+		} else {
+			EVP_PKEY *k = pool_get(jstr(kd, "base", "~"));
+			if (jint(kd, "priv", 0)) PEM_write_PrivateKey(stdout, k, NULL, NULL, 0, NULL, NULL);
+			else PEM_write_PUBKEY(stdout, k);
+		}
+		return 0;
+	}
+	if (mode_gen) {
+		/* print a fresh private key; "zx"/"zy"/"zd": repeat until that EC component has a leading zero byte */
+		for (int tries = 0; tries < 200000; tries++) {
+			EVP_PKEY *k = fresh_key(mode_gen, atoi(mode_arg ? mode_arg : "2048"));
+			int ok = 1;
+			if (mode_zero) {
+				BIGNUM *bn = NULL;
+				int w = (EVP_PKEY_get_bits(k) + 7) / 8;
+				EVP_PKEY_get_bn_param(k, !strcmp(mode_zero, "zx") ? OSSL_PKEY_PARAM_EC_PUB_X : !strcmp(mode_zero, "zy") ? OSSL_PKEY_PARAM_EC_PUB_Y : OSSL_PKEY_PARAM_PRIV_KEY, &bn);
+				ok = bn && BN_num_bytes(bn) < w;
+				BN_free(bn);
+			}
+			if (ok) { PEM_write_PrivateKey(stdout, k, NULL, NULL, 0, NULL, NULL); return 0; }
+			EVP_PKEY_free(k);
+		}
+		die("no such key found");
 	}
 	if (!script) die("need --script");
 	snprintf(startup_ops, sizeof startup_ops, "%s", jwt_get_crypto_ops());
